@@ -116,3 +116,61 @@ Proof. intros. rewrite firstn_length. lia. Qed.
 
 Lemma zeros_length : forall n, length (zeros n) = n.
 Proof. intros. apply repeat_length. Qed.
+
+(* ---- NUL-terminated strings in zero-filled fields ---- *)
+Lemma cstr_app_nul : forall s rest, no_nul s -> cstr (s ++ 0%Z :: rest) = s.
+Proof.
+  induction s; intros rest H; cbn [app cstr].
+  - reflexivity.
+  - inversion H; subst. destruct (a =? 0)%Z eqn:E; [apply Z.eqb_eq in E; contradiction|].
+    f_equal. apply IHs. assumption.
+Qed.
+
+Lemma cstr_no_nul : forall s, no_nul s -> cstr s = s.
+Proof.
+  induction s; intros H; cbn [cstr]; [reflexivity|].
+  inversion H; subst. destruct (a =? 0)%Z eqn:E; [apply Z.eqb_eq in E; contradiction|].
+  f_equal. apply IHs. assumption.
+Qed.
+
+Lemma cstr_app_zeros : forall s n, no_nul s -> cstr (s ++ zeros n) = s.
+Proof.
+  intros s n H. destruct n.
+  - cbn [zeros repeat]. rewrite app_nil_r. apply cstr_no_nul. assumption.
+  - cbn [zeros repeat]. apply cstr_app_nul. assumption.
+Qed.
+
+Lemma slice_slice : forall a k o n (l : list Z), a + k <= n -> slice a k (slice o n l) = slice (o + a) k l.
+Proof.
+  intros. unfold slice at 2. rewrite slice_firstn by lia. apply slice_skipn.
+Qed.
+
+Lemma skipn_repeat_z : forall a n (x : Z), skipn a (repeat x n) = repeat x (n - a).
+Proof.
+  induction a; intros n x; cbn [skipn].
+  - rewrite Nat.sub_0_r. reflexivity.
+  - destruct n; cbn [repeat]; [reflexivity | apply IHa].
+Qed.
+
+Lemma firstn_repeat_z : forall k n (x : Z), k <= n -> firstn k (repeat x n) = repeat x k.
+Proof.
+  induction k; intros n x H; cbn [firstn repeat]; [reflexivity|].
+  destruct n; [lia|]. cbn [repeat]. f_equal. apply IHk. lia.
+Qed.
+
+Lemma slice_zeros : forall a k n, a + k <= n -> slice a k (zeros n) = zeros k.
+Proof.
+  intros. unfold slice, zeros. rewrite skipn_repeat_z. apply firstn_repeat_z. lia.
+Qed.
+
+(* a sub-range of a region known to be all zero *)
+Lemma slice_of_zero_region : forall (l : list Z) o n a k,
+  slice o n l = zeros n -> o <= a -> a + k <= o + n -> slice a k l = zeros k.
+Proof.
+  intros l o n a k Hz Ho Hk.
+  replace a with (o + (a - o)) by lia. rewrite <- (slice_slice (a - o) k o n l) by lia.
+  rewrite Hz. apply slice_zeros. lia.
+Qed.
+
+Lemma last_byte_app1 : forall (l : list Z) c, last_byte (l ++ [c]) = c.
+Proof. intros. unfold last_byte. apply last_last. Qed.
